@@ -172,6 +172,17 @@ def snap(a):
             "c": dd.get("_traits_cache_c"), "ad": a.ad.v}
 
 
+def reg(a):
+    """Digest of the sizes of every notifier list of the object (handler registrations)."""
+    sizes = [len(a._trait("x", 2)._notifiers(False) or []), len(a._notifiers(False) or []), len(a.l.notifiers),
+             len(a.d.notifiers), len(a.s.notifiers), len(a._trait("l", 2)._notifiers(False) or []),
+             len(a._trait("l_items", 2)._notifiers(False) or []), len(a._trait("c", 2)._notifiers(False) or [])]
+    h = 0
+    for n in sizes:
+        h = h * 16 + min(n, 15)
+    return h
+
+
 def execute(a, op, echo):
     k = op[0]
     if k == "SetX":
@@ -234,16 +245,16 @@ def run_one(obj, op, plan):
         out = dlib.exn_name(e, EXN)
     fired = PLAN["fired"]
     arm(None)
-    return {"out": out, "st": snap(obj), "log": sorted(obj._log)}, fired, echo
+    return {"out": out, "st": snap(obj), "log": sorted(obj._log), "reg": reg(obj)}, fired, echo
 
 
 def run_case(case):
     a, tw = make(), make()
-    res = {"init": snap(a), "steps": []}
+    res = {"init": snap(a), "reg0": reg(a), "steps": []}
     for op, plan in case["ops"]:
         oa, fired, echo = run_one(a, op, plan)
         if plan and plan[0] == "call" and fired:
-            ot = {"out": "Ok", "st": snap(tw), "log": []}      # the twin never sees the failing operation
+            ot = {"out": "Ok", "st": snap(tw), "log": [], "reg": reg(tw)}      # the twin never sees the failing operation
         else:
             ot, _, _ = run_one(tw, op, None)
         res["steps"].append({"fired": fired, "A": oa, "T": ot, "echo": echo})
